@@ -401,7 +401,7 @@ def run(lines, out, args):
             st["want"] = line.split("|")[1].strip()
             out.write("ok\n")
             continue
-        if st["want"] and op in MUTATORS and i < len(lines) and lines[i].split("|")[0].strip() in MUTATORS:
+        if st["want"] and op in MUTATORS and i < len(lines) and lines[i].split("|")[0].strip() in MUTATORS + ("reinit",):
             st["armed"], st["want"], st["nested_out"] = (st["want"], lines[i]), None, None
             got = do_line(line)
             st["armed"] = None
